@@ -16,6 +16,7 @@ import rdflib.plugins.sparql as sparql_mod
 from rdflib import Dataset, URIRef
 
 _STATE = {"ds": None, "log": [], "server": None, "base": None, "errors": []}
+PRIVATE = "urn:x-rdflib:default"
 _CREATE = re.compile(r"^\s*CREATE\s+(SILENT\s+)?GRAPH\s+<[^<>]*>\s*$", re.I)
 
 
@@ -53,6 +54,10 @@ class Handler(BaseHTTPRequestHandler):
 
     def _query(self, query, params):
         _STATE["log"].append(("query", query, {k: v for k, v in params.items() if k != "query"}))
+        if PRIVATE in query or any(PRIVATE in v for vs in params.values() for v in vs if isinstance(v, str)):
+            # RDFLib's in-process name for "the default graph" means nothing to an endpoint (here it would even coincide with the backing
+            # Dataset's default graph and hide the slip)
+            _STATE["errors"].append(("private-default-graph-name-sent", query, repr(params.get("default-graph-uri"))))
         ds = _STATE["ds"]
         target = ds
         dg = params.get("default-graph-uri")
@@ -76,6 +81,8 @@ class Handler(BaseHTTPRequestHandler):
 
     def _update(self, text, params):
         _STATE["log"].append(("update", text, dict(params)))
+        if PRIVATE in text:
+            _STATE["errors"].append(("private-default-graph-name-sent", text, ""))
         old = (sparql_mod.SPARQL_DEFAULT_GRAPH_UNION, sparql_mod.SPARQL_LOAD_GRAPHS)
         sparql_mod.SPARQL_DEFAULT_GRAPH_UNION, sparql_mod.SPARQL_LOAD_GRAPHS = False, False
         try:
